@@ -136,7 +136,7 @@ fn case_on_jet_output(rng: &mut Rng, spec: &txgen::TxSpec) -> Option<Dag> {
     Some(d)
 }
 
-fn one_case(rng: &mut Rng, case: &mut Case, family: Family) -> Outcome {
+pub fn one_case(rng: &mut Rng, case: &mut Case, family: Family) -> Outcome {
     let fuel = rng.urange(4, 24);
     let dag = match gen_case_heavy(rng, family, fuel) {
         Some(d) => d,
